@@ -347,6 +347,67 @@ theorem go_reference_kind_exception_witness :
      read (runOps (g.allCopied .funcValue [.chan]) [.write 0 0 20] (stepOp (g.allCopied .funcValue [.chan]) m (.call 0 [0]))) 1 0 = 20) := by
   decide
 
+/-- two successive (or concurrent) calls of ONE method value / function wrapper / function literal from frame `fr` with the
+    operand slots `args` (the bound receiver first): the frames of the two activations are `m.frames.length` and
+    `m.frames.length + 1` -/
+def twoCalls (fresh : Bool) (m : Mem) (fr : Nat) (args : List Nat) : Mem :=
+  stepOp fresh (stepOp fresh m (.call fr args)) (.call fr args)
+
+/-- FULL (facts read from the reflect.MakeFunc callbacks of genFunctionWrapperFor and getFunc: one frame per call, every
+    slot rebound only to `reflect.New(t).Elem()`, receiver and arguments written THROUGH the slots): every activation of a
+    method value has a receiver variable (and parameters) of its own — whatever the first activation writes to its
+    operand slots, whatever any other frame does afterwards, the second activation reads what it was given -/
+theorem wrapper_activations_own_cells (m : Mem) (h : Owns m) (fr : Nat) (args : List Nat) (slot : Nat) (v : Int)
+    (ops : List Op) (hothers : ∀ op ∈ ops, op.frame ≠ m.frames.length + 1) (j : Nat) :
+    read (runOps Generated.C08.goFacts.wrapperCallFresh (.write m.frames.length slot v :: ops)
+            (twoCalls Generated.C08.goFacts.wrapperCallFresh m fr args)) (m.frames.length + 1) j
+      = read (twoCalls Generated.C08.goFacts.wrapperCallFresh m fr args) (m.frames.length + 1) j := by
+  have hf : Generated.C08.goFacts.wrapperCallFresh = true := by rw [gofacts_tie]; decide
+  rw [hf]
+  unfold twoCalls
+  have ho1 := stepOp_owns m (.call fr args) h
+  have ho2 := stepOp_owns _ (.call fr args) ho1
+  have hlen : (stepOp true m (.call fr args)).frames.length = m.frames.length + 1 := by simp [stepOp]
+  have hk : (stepOp true (stepOp true m (.call fr args)) (.call fr args)).frames[m.frames.length + 1]?
+      = some (List.range' (stepOp true m (.call fr args)).cells.length args.length) := by
+    rw [← hlen]; simp [stepOp]
+  refine runOps_other _ _ ho2 (m.frames.length + 1) _ hk ?_ j
+  intro op hop
+  rcases List.mem_cons.mp hop with rfl | hin
+  · simp [Op.frame]
+  · exact hothers op hin
+
+/-- the same for the function made for a function literal (getFunc) -/
+theorem literal_activations_own_cells (m : Mem) (h : Owns m) (fr : Nat) (args : List Nat) (slot : Nat) (v : Int) (j : Nat) :
+    read (runOps Generated.C08.goFacts.literalCallFresh [.write m.frames.length slot v]
+            (twoCalls Generated.C08.goFacts.literalCallFresh m fr args)) (m.frames.length + 1) j
+      = read (twoCalls Generated.C08.goFacts.literalCallFresh m fr args) (m.frames.length + 1) j := by
+  have hf : Generated.C08.goFacts.literalCallFresh = true := by rw [gofacts_tie]; decide
+  have hw : Generated.C08.goFacts.wrapperCallFresh = true := by rw [gofacts_tie]; decide
+  rw [hf]
+  have := wrapper_activations_own_cells m h fr args slot v [] (by simp) j
+  rw [hw] at this
+  exact this
+
+/-- frames_disjoint for wrapper calls, over the regenerated facts: the frames of all activations of wrappers and literals
+    reach pairwise disjoint cells, for every sequence of calls, writes and definitions -/
+theorem wrapper_frames_disjoint (m : Mem) (h : Owns m) (ops : List Op) (i j : Nat) (f g : List Nat) (hij : i ≠ j)
+    (hf : (runOps Generated.C08.goFacts.wrapperCallFresh ops m).frames[i]? = some f)
+    (hg : (runOps Generated.C08.goFacts.wrapperCallFresh ops m).frames[j]? = some g) : ∀ c ∈ f, c ∉ g := by
+  have hw : Generated.C08.goFacts.wrapperCallFresh = true := by rw [gofacts_tie]; decide
+  rw [hw] at hf hg
+  exact frames_disjoint m h ops i j f g hij hf hg
+
+/-- WHAT A SHARED RECEIVER CELL WOULD ALLOW (a callback that rebinds the receiver slot to the copy made when the method
+    value was bound, `d[numRet] = recv`): `sum := a.Sum` with a value receiver that accumulates into its copy — the
+    second activation starts from what the first one left (cell 0 is the bound copy holding 100; activation 1 writes
+    155 through its receiver slot) -/
+theorem shared_receiver_cell_witness :
+    let m : Mem := { cells := [100], owner := [0], frames := [[0]] }
+    read (runOps false [.write 1 0 155] (twoCalls false m 0 [0])) 2 0 = 155 ∧
+    read (runOps true [.write 1 0 155] (twoCalls true m 0 [0])) 2 0 = 100 ∧
+    ({ Expected.C08.goFacts with wrapperCellsFresh := false } : GoFacts).wrapperCallFresh = false := by decide
+
 /-- REGRESSION EXAMPLES / WHAT THE OLD FACTS ALLOWED (F08-2: callBin's go branch passed the frame values; F08-4: the
     receiver was read inside the wrapper's callback): an operand that is not copied at the go statement shows the
     parent's later assignment (`y := 10; go m.Store("k", y); y = 20` stored 20; `go accs[w].run()` in a loop ran the
